@@ -266,9 +266,13 @@ impl AsyncWrite for MockWriter {
 
 // ----------------------------------------------------------------- executor
 
+pub type RunQ = Arc<std::sync::Mutex<VecDeque<usize>>>;
+
 pub struct TaskWaker {
     pub woken: AtomicBool,
     pub wakes: AtomicU64,
+    pub id: usize,
+    pub q: RunQ,
 }
 
 impl Wake for TaskWaker {
@@ -276,18 +280,28 @@ impl Wake for TaskWaker {
         self.wake_by_ref()
     }
     fn wake_by_ref(self: &Arc<Self>) {
-        self.woken.store(true, Ordering::SeqCst);
         self.wakes.fetch_add(1, Ordering::SeqCst);
+        if !self.woken.swap(true, Ordering::SeqCst) {
+            self.q.lock().unwrap().push_back(self.id);
+        }
     }
 }
 
 impl TaskWaker {
-    pub fn new(woken: bool) -> Arc<TaskWaker> {
-        Arc::new(TaskWaker { woken: AtomicBool::new(woken), wakes: AtomicU64::new(0) })
+    pub fn new(id: usize, q: &RunQ) -> Arc<TaskWaker> {
+        Arc::new(TaskWaker { woken: AtomicBool::new(false), wakes: AtomicU64::new(0), id, q: q.clone() })
     }
     pub fn is_woken(&self) -> bool {
         self.woken.load(Ordering::SeqCst)
     }
+}
+
+pub const CTX_ID: usize = 0;
+pub fn op_id(i: usize) -> usize {
+    1 + 2 * i
+}
+pub fn stream_id(i: usize) -> usize {
+    2 + 2 * i
 }
 
 pub struct Task<T> {
@@ -305,8 +319,8 @@ pub enum Polled<T> {
 }
 
 impl<T> Task<T> {
-    pub fn new(fut: Pin<Box<dyn Future<Output = T>>>) -> Task<T> {
-        Task { fut: Some(fut), w: TaskWaker::new(true), polls: 0, panic: None }
+    pub fn new(fut: Pin<Box<dyn Future<Output = T>>>, id: usize, q: &RunQ) -> Task<T> {
+        Task { fut: Some(fut), w: TaskWaker::new(id, q), polls: 0, panic: None }
     }
     pub fn alive(&self) -> bool {
         self.fut.is_some()
@@ -538,6 +552,8 @@ pub struct Sim {
     pub fed: u64,
     pub max_io_calls_in_poll: u64,
     pub log_enabled: bool,
+    pub runq: RunQ,
+    parked: Vec<usize>,
 }
 
 impl Sim {
@@ -546,7 +562,8 @@ impl Sim {
         let sh = Rc::new(RefCell::new(CtxShared { cmds: VecDeque::new(), results: Vec::new(), in_call: None }));
         let reader = MockReader::new();
         let writer = MockWriter::new();
-        let task = Task::new(Box::pin(ctx_main(ctx, sh.clone())));
+        let runq: RunQ = Arc::new(std::sync::Mutex::new(VecDeque::new()));
+        let task = Task::new(Box::pin(ctx_main(ctx, sh.clone())), CTX_ID, &runq);
         let mut s = Sim {
             reader: reader.clone(),
             writer: writer.clone(),
@@ -574,6 +591,8 @@ impl Sim {
             fed: 0,
             max_io_calls_in_poll: 0,
             log_enabled: true,
+            runq,
+            parked: Vec::new(),
         };
         s.cmd(Cmd::SetUp(reader, writer));
         s
@@ -704,8 +723,8 @@ impl Sim {
     /// Creates the operation's future (from a fresh clone of handle `h`) without polling it.
     pub fn create_op(&mut self, h: usize, spec: OpSpec) -> usize {
         let handle = self.handles[h].as_ref().expect("harness: handle gone").clone();
-        let task = Task::new(make_op_future(handle, spec.clone()));
         let idx = self.ops.len();
+        let task = Task::new(make_op_future(handle, spec.clone()), op_id(idx), &self.runq);
         self.note(|| format!("op{idx} create {}", brief_spec(&spec)));
         self.ops.push(OpSlot {
             spec,
@@ -773,9 +792,11 @@ impl Sim {
     pub fn take_stream(&mut self, op: usize) -> Option<usize> {
         let rsp = self.ops[op].rsp.take()?;
         let s: poster_stream::S = Box::pin(rsp.stream());
+        let w = TaskWaker::new(stream_id(self.streams.len()), &self.runq);
+        w.wake_by_ref(); // a new stream is polled once without having been woken
         self.streams.push(StreamSlot {
             stream: Some(s),
-            w: TaskWaker::new(true),
+            w,
             items: Vec::new(),
             ended: false,
             polls: 0,
@@ -903,56 +924,72 @@ impl Sim {
     // ---- scheduling
 
     fn any_woken(&self) -> bool {
-        if !self.hold_ctx && self.ctx.as_ref().map(|t| t.woken()).unwrap_or(false) {
-            return true;
+        !self.runq.lock().unwrap().is_empty()
+    }
+
+    /// Moves tasks that were woken while held back onto the run queue.
+    fn unpark(&mut self) {
+        if !self.parked.is_empty() {
+            let p = std::mem::take(&mut self.parked);
+            let mut q = self.runq.lock().unwrap();
+            for id in p {
+                q.push_back(id);
+            }
         }
-        if self.ops.iter().any(|o| !o.held && o.task.woken()) {
-            return true;
-        }
-        if self.auto_streams && self.streams.iter().any(|s| !s.held && s.stream.is_some() && s.w.is_woken()) {
-            return true;
-        }
-        false
     }
 
     fn settle_d0(&mut self) {
+        self.unpark();
         let mut guard = 0u64;
         loop {
-            let mut progressed = false;
-            let ctx_first = self.order % 2 == 0;
-            if ctx_first && !self.hold_ctx && self.ctx.as_ref().map(|t| t.woken()).unwrap_or(false) {
-                self.poll_ctx();
-                progressed = true;
+            let mut batch: Vec<usize> = {
+                let mut q = self.runq.lock().unwrap();
+                q.drain(..).collect()
+            };
+            if batch.is_empty() {
+                break;
             }
-            let n = self.ops.len();
-            for k in 0..n {
-                let i = if self.order >= 2 { n - 1 - k } else { k };
-                if !self.ops[i].held && self.ops[i].task.woken() {
-                    self.poll_op(i);
-                    progressed = true;
+            // poll order inside one batch: 0 = ctx, ops ascending; 1 = ops ascending, ctx; 2 = ctx, ops descending; 3 = ops descending, ctx
+            let ord = self.order;
+            batch.sort_by_key(|&id| {
+                let is_ctx = id == CTX_ID;
+                let base: i64 = if ord >= 2 { -(id as i64) } else { id as i64 };
+                let ctx_key: i64 = if ord % 2 == 0 { i64::MIN } else { i64::MAX };
+                if is_ctx {
+                    ctx_key
+                } else {
+                    base
                 }
-            }
-            if !ctx_first && !self.hold_ctx && self.ctx.as_ref().map(|t| t.woken()).unwrap_or(false) {
-                self.poll_ctx();
-                progressed = true;
-            }
-            if self.auto_streams {
-                for s in 0..self.streams.len() {
-                    if !self.streams[s].held && self.streams[s].stream.is_some() && self.streams[s].w.is_woken() {
+            });
+            for id in batch {
+                if id == CTX_ID {
+                    if self.hold_ctx {
+                        self.parked.push(id);
+                    } else if self.ctx.as_ref().map(|t| t.woken()).unwrap_or(false) {
+                        self.poll_ctx();
+                    }
+                } else if id % 2 == 1 {
+                    let i = (id - 1) / 2;
+                    if self.ops[i].held {
+                        self.parked.push(id);
+                    } else if self.ops[i].task.woken() {
+                        self.poll_op(i);
+                    }
+                } else {
+                    let s = (id - 2) / 2;
+                    if self.streams[s].held || !self.auto_streams {
+                        self.parked.push(id);
+                    } else if self.streams[s].stream.is_some() && self.streams[s].w.is_woken() {
                         self.drain_stream(s);
-                        progressed = true;
                     }
                 }
             }
             if self.discipline == Discipline::D2 && self.rng.chance(1, 3) {
                 self.spurious_poll_random();
             }
-            if !progressed {
-                break;
-            }
             guard += 1;
-            if guard > 200_000 {
-                self.note(|| "settle: more than 200000 rounds without quiescence".into());
+            if guard > 2_000_000 {
+                self.note(|| "settle: more than 2000000 rounds without quiescence".into());
                 self.panics.push("harness: VERIF_LIVELOCK settle did not reach quiescence".into());
                 break;
             }
